@@ -25,6 +25,8 @@ class IndexSpec:
     calls: dict = field(default_factory=dict)
     # parameter index -> kind, for the function being typed
     params: dict = field(default_factory=dict)
+    # (parent attribute, attribute) -> kind, e.g. ('columns', 'low') -> 'COL'
+    attr_paths: dict = field(default_factory=dict)
 
 
 @dataclass
@@ -59,6 +61,9 @@ class IndexTyper:
             return self.env[e]
         if e[0] == "p" and e[1] in self.spec.params:
             return self.spec.params[e[1]]
+        if e[0] == "a" and len(e) == 3 and isinstance(e[1], tuple) and len(e[1]) == 3 and e[1][0] == "a" \
+                and (e[1][2], e[2]) in self.spec.attr_paths:
+            return self.spec.attr_paths[(e[1][2], e[2])]
         if e[0] == "a" and len(e) == 3 and e[2] in self.spec.attrs:
             return self.spec.attrs[e[2]]
         if e[0] == "c" and e[1] == ("g", "len") and len(e[2]) == 1:
